@@ -29,6 +29,39 @@ chk(
     "MIR table extraction + provenance (origin) analysis + edge dominance over rustc_private facts",
 )
 
+chk(
+    "C13",
+    "Effect analysis over everything reachable from compile/search/clone/conversion: statics and thread-local inventory, "
+    "interior-mutability scan of every ADT field (unknown type constructors fail closed), fresh per-search Context that is "
+    "stored nowhere, Context.offset write-only on the value path, no unsafe and no Rc/Arc mutation APIs, no ambient "
+    "nondeterminism (clock/env/fs/net/thread/rand, hash iteration, pointer-to-integer), derived Clone and triple-preserving "
+    "constructors. An alarm means purity can no longer be established from the shape of the code (sound direction).",
+    "Trusted: determinism of std/serde/serde_json callees; purity of user-supplied functions; Rust aliasing rules.",
+    "effect / who-may-call / who-may-read analysis on MIR + ADT tables (rustc_private facts)",
+)
+chk(
+    "C16",
+    "Send + Sync of all public value types is proved by rustc's trait solver on witness programs generated from the sync "
+    "fact file (positive witness under feature sync; E0277 negative twins under default features and an Rc control under "
+    "sync). Structural rules show the guarantee is not forged (no unsafe anywhere, no explicit Send/Sync impl), that the "
+    "C13 purity/immutability verdict also holds for the sync build, that every MIR body of the sync build equals its "
+    "default twin modulo Rc<->Arc, and that the default runtime is initialised through lazy_static/std::sync::Once. The "
+    "step from these facts to 'every schedule yields the sequential results' is Rust's data-race-freedom guarantee.",
+    "Trusted base: rustc trait solver and auto traits, std (Arc, Once), lazy_static, Rust's memory model for safe code.",
+    "type-level witnesses (compile-pass / E0277 compile-fail twins) + effect analysis + cross-configuration MIR comparison",
+    category="proof",
+)
+chk(
+    "C17",
+    "All four feature sets are compiled by the real compiler and compared body by body (MIR statements, terminators, "
+    "unresolved callees + generic arguments, local types) modulo Arc->Rc; feature conditions are confined to lib.rs; "
+    "re-routed call sites are enumerated; each of the 22 specialised conversions is paired with the generic serde path "
+    "(same Variable kind, same-width cast-free conversion of the argument); manifest features enable nothing.",
+    "Trusted: serde's primitive Serialize impls and serde_json::Value's Serialize impl follow their documentation; "
+    "NaN/inf inputs are outside the quantifier.",
+    "cross-configuration MIR comparison + provenance pairing table + lexical cfg confinement",
+)
+
 for pid in [f"C{n:02d}" for n in range(1, 19)]:
     if pid not in CHECKS and pid not in NOT_APPLICABLE:
         na(pid, "check not implemented yet in this revision of /verif (work in progress; see DESIGN.md §3)")
